@@ -76,6 +76,14 @@ Wefac(w, f) == HasWell(w) /\ AddKw([kw |-> "WEFAC", well |-> w, f |-> f]) /\ UNC
 Gefac(g, f) == g \in st.groups \ {"FIELD"} /\ AddKw([kw |-> "GEFAC", group |-> g, f |-> f]) /\ UNCHANGED st
 Wpimult(w, f) == /\ HasWell(w) /\ st.wells[w].conns # {}
                  /\ AddKw([kw |-> "WPIMULT", well |-> w, f |-> f]) /\ UNCHANGED st
+Welpi(w, v) == /\ HasWell(w) /\ st.wells[w].conns # {} /\ ~st.wells[w].inj
+               /\ AddKw([kw |-> "WELPI", well |-> w, v |-> v]) /\ UNCHANGED st
+Wtest(w, days, n) == HasWell(w) /\ AddKw([kw |-> "WTEST", well |-> w, days |-> days, n |-> n]) /\ UNCHANGED st
+Wecon(w, orat) == HasWell(w) /\ AddKw([kw |-> "WECON", well |-> w, orat |-> orat]) /\ UNCHANGED st
+Wgrupcon(w, avail) == HasWell(w) /\ AddKw([kw |-> "WGRUPCON", well |-> w, avail |-> avail]) /\ UNCHANGED st
+Complump(w, k1, k2, n) == /\ HasWell(w) /\ st.wells[w].conns # {} /\ k1 <= k2
+                          /\ AddKw([kw |-> "COMPLUMP", well |-> w, k1 |-> k1, k2 |-> k2, n |-> n]) /\ UNCHANGED st
+Gconinje(g, rate) == g \in st.groups \ {"FIELD"} /\ AddKw([kw |-> "GCONINJE", group |-> g, rate |-> rate]) /\ UNCHANGED st
 Gconprod(g, orat) == g \in st.groups \ {"FIELD"} /\ AddKw([kw |-> "GCONPROD", group |-> g, orat |-> orat]) /\ UNCHANGED st
 \* a well list exists after NEW
 Wlist(name, op, w) == /\ HasWell(w) /\ (op # "NEW" => name \in st.lists)
@@ -120,6 +128,12 @@ SNext ==
          \/ \E g \in GroupNames, f \in {1, 2, 4} : Gefac(g, f)
          \/ \E w \in WellNames, f \in {2, 3} : Wpimult(w, f)
          \/ \E g \in GroupNames, o \in {500, 900} : Gconprod(g, o)
+         \/ \E g \in GroupNames, r \in {600, 800} : Gconinje(g, r)
+         \/ \E w \in WellNames, v \in {5, 9} : Welpi(w, v)
+         \/ \E w \in WellNames, d \in {10, 30}, n \in {0, 2} : Wtest(w, d, n)
+         \/ \E w \in WellNames, o \in {5, 20} : Wecon(w, o)
+         \/ \E w \in WellNames, a \in {"YES", "NO"} : Wgrupcon(w, a)
+         \/ \E w \in WellNames, k1, k2 \in {1, 2}, n \in {1, 2} : Complump(w, k1, k2, n)
          \/ \E w \in WellNames, n \in {"*L1", "*L2"}, op \in {"NEW", "ADD", "DEL"} : Wlist(n, op, w)
          \/ \E q \in {"FU1", "WU1"}, v \in {1, 2} : UdqAssign(q, v)
          \/ \E v \in {1, 2} : Tuning(v)
